@@ -196,14 +196,14 @@ def fresh_at_all_call_sites(model, fname, pname_index, owner_methods):
                 if pname_index >= len(c.args):
                     return False
                 a = c.args[pname_index]
-                if isinstance(a, (ast.Dict, ast.List)):
-                    continue
+                if isinstance(a, (ast.Dict, ast.List, ast.DictComp, ast.ListComp)):
+                    continue        # a display or a comprehension builds a new container every time it is evaluated
                 if isinstance(a, ast.Call) and ast.unparse(a.func) in FRESH_CALLS:
                     continue
                 if isinstance(a, ast.Name):
                     # a local assigned only from literals / fresh calls in the caller
                     asg = [y for y in ast.walk(fn) if isinstance(y, ast.Assign) and any(is_name(t, a.id) for t in y.targets)]
-                    if asg and all(isinstance(y.value, (ast.Dict, ast.List)) or (isinstance(y.value, ast.Call) and ast.unparse(y.value.func) in FRESH_CALLS) for y in asg):
+                    if asg and all(isinstance(y.value, (ast.Dict, ast.List, ast.DictComp, ast.ListComp)) or (isinstance(y.value, ast.Call) and ast.unparse(y.value.func) in FRESH_CALLS) for y in asg):
                         continue
                 return False
     return sites > 0
